@@ -1,4 +1,5 @@
 import NTV.Proofs.Lemmas.PolyModBasics
+import NTV.Proofs.Lemmas.PolyDivremMod
 import NTV.Model.PolyModFactor
 /-! # C08 — factorisation modulo a prime: what is proved about the model so far.
 Irreducibility, distinctness and the product identity are certified on every explored case by an
@@ -13,5 +14,16 @@ theorem modpow_correct (x e m : Int) : modpow x e m ≡ x ^ e.toNat [ZMOD m] := 
 inverse modulo a prime p -/
 theorem leading_coefficient_inverse (p : Nat) (hp : p.Prime) (x : Int) (hx : IsCoprime x (p : Int)) :
     x * modinv x (p : Int) ≡ 1 [ZMOD (p : Int)] := modinv_spec p hp x hx
+
+/-- the division primitive every stage is built on, `poly_divrem(a, b, p)`, satisfies its contract for
+every prime p not dividing lc(b): a ≡ q·b + r (mod p), deg r < deg b, results canonical -/
+theorem division_contract (a b : List Int) (p : Nat) (hp : p.Prime) (ha : a ≠ []) (hb : b ≠ [])
+    (hab : b.length ≤ a.length) (hlc : IsCoprime (NTV.PolyG.lc b) (p : Int)) :
+    NTV.Hensel.PCong p (NTV.PolyG.toPoly a)
+      (NTV.PolyG.toPoly (NTV.PolyMod.polyDivrem a b p).1 * NTV.PolyG.toPoly b +
+        NTV.PolyG.toPoly (NTV.PolyMod.polyDivrem a b p).2) ∧
+    (NTV.PolyMod.polyDivrem a b p).2.length < b.length ∧
+    NTV.PolyG.Canon (NTV.PolyMod.polyDivrem a b p).1 ∧ NTV.PolyG.Canon (NTV.PolyMod.polyDivrem a b p).2 :=
+  NTV.PolyMod.polyDivrem_contract_prime a b p hp ha hb hab hlc
 
 end NTV.C08
